@@ -26,7 +26,7 @@ EXPLANATION = (
     "hard bounds (0, inf) started from the caller's guess; (5) every keyword call lexically inside `try:` in a "
     "nopython-jitted function binds identically by position and by name (numba 0.67 binds such keywords positionally - "
     "the defect that made the inversion return NaN for every input); (6) the public entry points wire generation / "
-    "dissipation functions, parameter sets, grid, first guess and rate of change into the kernels. Not decided: that the "
+    "dissipation functions, parameter sets, grid, first guess and rate of change into the kernels. R11.3 also checks the dissipation-weighted mean direction itself (all bins, wavenumber weights, atan2(ky,kx) in degrees mod 360) and R11.7 the solver bracket bookkeeping. Not decided: that the "
     "balance closes to 0.01 m/s and that a root exists (numerical behaviour of the iteration)."
 )
 
